@@ -2,7 +2,10 @@
 
 case = one run of update_file:
 
-  {"versions": [v0, ..., vn],          n >= 1, each a list of "\\n"-terminated lines (no CR, no lone ".")
+  {"versions": [v0, ..., vn],          n >= 1, each a list of "\\n"-terminated lines (no CR, no lone ".");
+                                       consecutive versions may be equal (a no-change step: the file was
+                                       published again unchanged; its patch is the empty ed script, served as
+                                       a gzip of zero bytes and listed with size 0 and the hash of "")
    "hash": "SHA1" | "SHA256" | "both", which hash family the Index publishes
    "order": 0..3, "extra": bool, "names": 0 | 1      Index layout: field order, ignorable fields + padded
                                                       columns, patch naming scheme
@@ -63,8 +66,9 @@ from debian import debian_support as ds
 ID = "C19"
 LEVEL = "fault_enumeration"
 RULE = ("Hypothesis generates histories v0..vn (n=1..4, 0..7 lines per version from a 15-line pool (incl. lines with FF, VT, GS, NEL, U+2028 inside), "
-        "each version derived from the previous one by 1..2 hunks, sometimes reverting to an earlier "
-        "one) x Index layout (SHA1 / SHA256 / both, 4 field orders, ignorable fields, 2 naming "
+        "each version derived from the previous one by 1..2 hunks, sometimes (1 step in 8) reverting to an "
+        "earlier one, sometimes (1 step in 8, any step incl. the first and the last, also several in a row) "
+        "identical to the previous one = a no-change step whose patch is the empty script) x Index layout (SHA1 / SHA256 / both, 4 field orders, ignorable fields, 2 naming "
         "schemes) x call form (verbose False / True; parameter by keyword, positional, or through the "
         "deprecated alias updateFile); for every history the complete plan set is enumerated (fixed "
         "histories: at both verbose values; generated histories: at the drawn verbose value, plus every "
@@ -79,7 +83,8 @@ RULE = ("Hypothesis generates histories v0..vn (n=1..4, 0..7 lines per version f
         "form, start, faults) triple")
 ASSUMPTIONS = [
     "expected content is vn itself; hashes in the Index come from hashlib, patches from the harness's LCS "
-    "differ checked against its own ed model (model/c18_eddiff.py)",
+    "differ checked against its own ed model (model/c18_eddiff.py); for a no-change step that differ yields the "
+    "empty script, and either of the equal history entries is accepted as the start of the applied chain",
     "fault injection by unittest.mock on debian.debian_support.open, os.rename, os.replace; "
     "a write fault that never fires (the implementation wrote through another channel) expects convergence",
     "transport-level patch faults (truncated, not gzip, missing) and Index defects the statement does not "
@@ -92,9 +97,9 @@ ASSUMPTIONS = [
     "Hypothesis 6.168 generators; sha1 for distinctness",
 ]
 EXHAUSTIVE = {
-    "quick": "for each of the 7 fixed histories x 3 hash configurations x verbose False/True and for every "
+    "quick": "for each of the 12 fixed histories (5 of them with no-change steps: first, last, interior, two in a row, only step) x 3 hash configurations x verbose False/True and for every "
              "generated history (at its drawn call form): every start state x every fault plan of plans()",
-    "thorough": "for each of the 7 fixed histories x 3 hash configurations x verbose False/True and for every "
+    "thorough": "for each of the 12 fixed histories (5 of them with no-change steps: first, last, interior, two in a row, only step) x 3 hash configurations x verbose False/True and for every "
                 "generated history (at its drawn call form): every start state x every fault plan of plans()",
 }
 BUDGET = {"quick": 180, "thorough": 1800}
@@ -144,8 +149,6 @@ def normalise(case):
     vs = case.get("versions")
     if not isinstance(vs, list) or len(vs) < 2 or len(vs) > 8 or not all(valid_version(v) for v in vs):
         return None
-    if any(a == b for a, b in zip(vs, vs[1:])):
-        return None     # an empty patch is not a pdiff
     n = len(vs) - 1
     cfg = dict(hash=case.get("hash") if case.get("hash") in ("SHA1", "SHA256", "both") else "SHA1",
                order=int(case.get("order") or 0) % 4, extra=bool(case.get("extra")),
@@ -588,6 +591,15 @@ def check(case):
         labels.append("index-with-ignorable-fields")
     if len(in_hist) > 1 or (in_hist and is_cur):
         labels.append("local-content-twice-in-history")
+    same = [j for j in range(n) if vs[j] == vs[j + 1]]
+    if same:
+        # a no-change step: vj+1 == vj, its pdiff is the empty ed script (size 0, hash of "")
+        labels.append("no-change-step")
+        labels += ["no-change-step:" + w for w, hit in (("first", 0 in same), ("last", n - 1 in same),
+                                                        ("interior", any(0 < j < n - 1 for j in same)),
+                                                        ("two-in-a-row", any(j + 1 in same for j in same))) if hit]
+        if exc is None and any(res["patches"][j] in got_patches for j in same):
+            labels.append("empty-patch-applied")
     if not target:
         labels.append("published-file-empty")
     if content == []:
@@ -614,8 +626,12 @@ def gen_history(draw):
     vs = [v]
     for _ in range(n):
         prev = vs[-1]
-        if len(vs) >= 2 and vs[-2] != prev and draw(st.integers(0, 7)) == 0:
+        kind = draw(st.integers(0, 7))
+        if kind == 0 and len(vs) >= 2 and vs[-2] != prev:
             vs.append(list(vs[-2]))      # revert: the same content twice in the history
+            continue
+        if kind == 1:
+            vs.append(list(prev))        # no-change step (any step, first and last included): empty patch
             continue
         new = list(prev)
         limit = len(prev)
@@ -646,6 +662,13 @@ FIXED = [
      ["x\n", "a\n", "c\n", "a\n", "x\n", "b\n"], ["x\n", "a\n", "c\n", "a\n", "x\n", "b\n", "2,3d\n"],
      ["a\n", "c\n", "a\n", "x\n", "b\n", "2,3d\n"]],
     [["b\n"], ["a\n"]],
+    # no-change steps (the file was published again unchanged: vj+1 == vj, the patch is the empty script):
+    # at the first step, at the last step, in the middle, twice in a row, and as the only step
+    [["a\n", "b\n"], ["a\n", "b\n"], ["a\n", "c\n", "b\n"]],
+    [["a\n", "b\n"], ["b\n"], ["b\n"]],
+    [["c\n"], ["c\n", "..\n"], ["c\n", "..\n"], ["1a\n", "c\n", "..\n"], ["1a\n", "c\n"]],
+    [[], [], [], ["é\n", "a\n"], ["é\n", "a\n"]],
+    [["a\n"], ["a\n"]],
 ]
 
 
